@@ -60,6 +60,13 @@
 	call $runtime.malloc
 	local.set $ptr
 
+	;; 分配失败: 不能继续 (否则下面的清零循环会覆盖从地址 0 开始的内存)
+	local.get $ptr
+	i32.eqz
+	if
+		unreachable
+	end
+
 	loop $zero
 		local.get $nbytes
 		i32.const 8
